@@ -1195,6 +1195,87 @@ run_get_atoms = _per_case_labels(run_get_atoms)
 run_cells = _per_case_labels(run_cells)
 run_adjacency = _per_case_labels(run_adjacency)
 
+# --------------------------------------------------------------------------
+# large periodic systems (size dependent code paths in the image replication)
+# --------------------------------------------------------------------------
+def st_periodic_large(tier):
+    sizes = [4097, 4200, 5000, 6500, 3000]
+    if tier == "thorough":
+        sizes += [8193, 12000, 20000]
+    return st.fixed_dictionaries(
+        {
+            "n": st.sampled_from(sizes),
+            "seed": st.integers(0, 2**31 - 1),
+            "lengths": st.tuples(st.sampled_from([20.0, 30.0, 45.0]), st.sampled_from([20.0, 25.0, 40.0]), st.sampled_from([20.0, 35.0])),
+            "angles": st.sampled_from([[90.0, 90.0, 90.0], [75.0, 100.0, 110.0], [60.0, 60.0, 90.0], [110.0, 80.0, 70.0], [90.0, 90.0, 120.0]]),
+            "via": st.sampled_from(["arg", "attr"]),
+        }
+    )
+
+
+def run_periodic_large(case):
+    import biotite.structure as struc
+    from biotite.structure import CellList
+
+    o = Outcome()
+    B = box_from_cell(*case["lengths"], *case["angles"])
+    if B is None:
+        o.invalid = True
+        return o
+    B32 = np.array(B, dtype=np.float32)
+    B64 = B32.astype(np.float64)
+    hmin = float(box_heights(B64).min())
+    if hmin < 5.0:
+        o.invalid = True
+        return o
+    rng = np.random.default_rng(case["seed"])
+    n = case["n"]
+    A32 = (rng.uniform(0, 1, (n, 3)) @ B64).astype(np.float32)
+    A64 = A32.astype(np.float64)
+    r = 0.2 * hmin
+    cs = float(np.float32(r * 0.75))
+    ortho = case["angles"] == [90.0, 90.0, 90.0]
+    o.label("orthorhombic" if ortho else "triclinic", f"n>{4096 if n > 4096 else 0}", "box_" + case["via"])
+    if case["via"] == "attr":
+        atoms = struc.AtomArray(n)
+        atoms.coord = A32.copy()
+        atoms.box = B32.copy()
+        cl = CellList(atoms, cs, periodic=True)
+    else:
+        cl = CellList(A32.copy(), cs, periodic=True, box=B32.copy())
+    # queries: some atoms themselves, points near faces and corners, points outside the box
+    qi = rng.integers(0, n, 6)
+    Q = np.concatenate(
+        [
+            A64[qi],
+            np.array([[0.01, 0.5, 0.5], [0.99, 0.99, 0.01], [0.5, 0.0, 1.0], [1.3, -0.4, 0.5], [-0.2, 1.7, 2.2]]) @ B64,
+        ]
+    ).astype(np.float32)
+    got = cl.get_atoms(Q, np.float32(r))
+    Q64 = Q.astype(np.float64)
+    shifts = np.array([[i, j, k] for i in (-1, 0, 1) for j in (-1, 0, 1) for k in (-1, 0, 1)], dtype=np.float64) @ B64
+    # queries may lie outside the box: reduce them first (lattice translation does not change the result)
+    frac = Q64 @ np.linalg.inv(B64)
+    Qin = (frac - np.floor(frac)) @ B64
+    scale = float(np.abs(B64).sum())
+    tol = 64 * EPS32 * scale if "EPS32" in globals() else 64 * float(np.finfo(np.float32).eps) * scale
+    for qidx in range(len(Q)):
+        d = np.min(np.linalg.norm(A64[None, :, :] + shifts[:, None, :] - Qin[qidx][None, None, :], axis=2), axis=0)
+        row = np.asarray(got[qidx])
+        row = row[row != -1]
+        have = set(int(x) for x in row)
+        must = set(np.nonzero(d <= r - tol)[0].tolist())
+        may = set(np.nonzero(d <= r + tol)[0].tolist())
+        o.ambiguous += len(may) - len(must)
+        missing = sorted(must - have)[:5]
+        extra = sorted(have - may)[:5]
+        o.check(not missing, "get_atoms_missing", lambda: f"n={n} query {qidx}: atoms {missing} within r={r:.3f} (min-image) are not returned")
+        o.check(not extra, "get_atoms_extra", lambda: f"n={n} query {qidx}: atoms {extra} outside r={r:.3f} are returned")
+        o.check(len(have) == len(row), "get_atoms_extra", f"n={n} query {qidx}: duplicate indices for r < half the smallest box height")
+    o.mark_nontrivial(not ortho)
+    return o
+
+
 SUBS = [
     Sub(
         "get_atoms",
@@ -1213,6 +1294,15 @@ SUBS = [
         thorough=64000,
         rule=">= 5 selected atoms in >= 2 cells and a query with a result that is neither empty nor everything",
         clauses="get_atoms with periodic=True uses the minimum-image distance; multiplicity = number of copies within r",
+    ),
+    Sub(
+        "periodic_large",
+        st_periodic_large,
+        run_periodic_large,
+        quick=32,
+        thorough=640,
+        rule="3000..6500 atoms (thorough up to 20000) in a triclinic periodic box",
+        clauses="periodic get_atoms exact for large atom counts (size dependent code paths)",
     ),
     Sub(
         "cells",
